@@ -121,6 +121,16 @@ class ProtocolCodeGenerator:
 
             generated_init.add_import("*", absolute_package_path)
 
+        # Export the generated classes only. Without __all__, a star-import of this package would
+        # also copy its submodules (one per type, named after the type), which can replace
+        # documented packages, modules and functions of the same name further up.
+        generated_init.add_line("__all__ = [")
+        generated_init.indent()
+        for type_name in self._get_type_names(protocol_file):
+            generated_init.add_line(f'"{type_name}",')
+        generated_init.unindent()
+        generated_init.add_line("]")
+
         relative_path = Path(os.path.relpath(protocol_file.path, self._input_root)).as_posix()
         path = os.path.join(os.path.dirname(relative_path), "__init__.py")
         path = Path(path).as_posix()
@@ -147,6 +157,19 @@ class ProtocolCodeGenerator:
 
         generated_init_file = PythonFile(path, generated_init, module_docstring=docstring)
         generated_init_file.write(self._output_root)
+
+    def _get_type_names(self, protocol_file):
+        protocol = protocol_file.protocol
+        result = []
+        for element in [*protocol.findall("enum"), *protocol.findall("struct")]:
+            result.append(get_required_string_attribute(element, "name"))
+        for protocol_packet in protocol.findall("packet"):
+            result.append(
+                get_required_string_attribute(protocol_packet, "family")
+                + get_required_string_attribute(protocol_packet, "action")
+                + self._make_packet_suffix(self._packet_paths.get(protocol_packet))
+            )
+        return result
 
     def _generate_enum(self, protocol_enum):
         type_name = get_required_string_attribute(protocol_enum, "name")
